@@ -40,6 +40,8 @@ def top_trunc(A, p):
 
 
 def run_case(ctx, res, p):
+    if p.get("op") == "est":
+        return case_est(ctx, res, p)
     m_ = mellon()
     from mellon.parameters import compute_L
     tree = totuple(p["tree"])
@@ -187,6 +189,77 @@ def run_case(ctx, res, p):
             res.corr_fail("model Nystroem assembly differs from implementation L L^T", p)
 
 
+def case_est(ctx, res, p):
+    """est.L / est.Lp after prepare_inference: the same statements with the estimator's own jitter, kernel, landmarks."""
+    m = mellon()
+    X = np.asarray(p["X"], float)
+    n = X.shape[0]
+    kw = dict(p["kw"])
+    if p.get("Xu") is not None:
+        kw["landmarks"] = np.asarray(p["Xu"], float)
+    res.count("est:" + p["config"])
+    canon = repr([(k, v.tobytes() if isinstance(v, np.ndarray) else v) for k, v in sorted(p.items())])
+    try:
+        est = m.DensityEstimator(jitter=float(p["jitter"]), ls=float(p["ls"]), **kw)
+        est.prepare_inference(X)
+    except Exception as e:
+        res.case(canon, False, {"op": "est", "config": p["config"]})
+        res.oracle_fail(f"prepare_inference raised {exc_class(e)}", p, signature="C04:est-raises")
+        return
+    res.case(canon, True, {"op": "est", "config": p["config"], "gp_type": str(est.gp_type), "L_shape": list(est.L.shape)})
+    j = float(p["jitter"])
+    cov = est.cov_func
+    L = np.asarray(est.L, float)
+    K = cu.kernel_np(cov, X, X) + j * np.eye(n)
+    gp = str(est.gp_type).split(".")[-1]
+    ks = max(np.max(np.abs(K)), 1e-300)
+    if gp == "FULL":
+        ref, cond = K, np.linalg.cond(K)
+    elif gp in ("SPARSE_CHOLESKY", "FIXED"):
+        Xu = np.asarray(est.landmarks, float)
+        Kuu = cu.kernel_np(cov, Xu, Xu) + j * np.eye(Xu.shape[0])
+        Kxu = cu.kernel_np(cov, X, Xu)
+        ref, cond = Kxu @ np.linalg.solve(Kuu, Kxu.T), np.linalg.cond(Kuu)
+        Lp = np.asarray(est.Lp, float)
+        dvp = np.max(np.abs(Lp @ Lp.T - Kuu)) / ks
+        res.dev("est_Lp_over_tol", dvp / (1e3 * EPS * cond + 1e-12))
+        if dvp > 1e3 * EPS * cond + 1e-10:
+            res.oracle_fail("est.Lp Lp^T is not the landmark kernel plus the estimator's jitter", p, detail={"rel": float(dvp)},
+                            signature="C04:est-Lp")
+    elif gp == "FULL_NYSTROEM":
+        ref, _, _ = top_trunc(K, L.shape[1]); cond = 1.0
+    else:
+        Xu = np.asarray(est.landmarks, float)
+        Kuu = cu.kernel_np(cov, Xu, Xu) + j * np.eye(Xu.shape[0])
+        Kxu = cu.kernel_np(cov, X, Xu)
+        ref, _, _ = top_trunc(Kxu @ np.linalg.solve(Kuu, Kxu.T), L.shape[1]); cond = np.linalg.cond(Kuu)
+    atol = (1e3 * EPS * cond) * ks + 1e-9 * ks
+    dv = np.max(np.abs(L @ L.T - ref))
+    res.dev("est_LLt_over_tol", dv / atol)
+    if dv > atol:
+        res.oracle_fail(f"est.L L^T is not the stated matrix for {gp} with the estimator's jitter", p,
+                        detail={"abs": float(dv), "tol": float(atol)}, signature="C04:est-LLt:" + gp)
+
+
+def gen_est_case(rng):
+    n, d = 12, 2
+    X, _ = gen_points(rng, n, d, kind="plain", scale=1.0)
+    cfg = ["full", "full_nystroem", "sparse_cholesky", "sparse_nystroem", "fixed"][rng.integers(5)]
+    kw, Xu = {}, None
+    if cfg == "full":
+        kw = dict(n_landmarks=0)
+    elif cfg == "full_nystroem":
+        kw = dict(gp_type="full_nystroem", rank=[0.9, 3][rng.integers(2)])
+    elif cfg == "sparse_cholesky":
+        Xu = gen_points(rng, 5, d, kind="plain")[0]
+    elif cfg == "sparse_nystroem":
+        Xu = gen_points(rng, 5, d, kind="plain")[0]; kw = dict(gp_type="sparse_nystroem", rank=[0.9, 3][rng.integers(2)])
+    else:
+        Xu = gen_points(rng, [5, 12, 14][rng.integers(3)], d, kind="plain")[0]; kw = dict(gp_type="fixed")
+    return {"op": "est", "config": cfg, "kw": kw, "X": X, "Xu": Xu, "jitter": loguniform(rng, 1e-4, 1e-1),
+            "ls": loguniform(rng, 0.7, 2.5)}
+
+
 def gen_case(rng, stream):
     n = 8
     d = [1, 3][rng.integers(2)]
@@ -240,5 +313,8 @@ def run(ctx, res):
     mellon()
     i = 0
     while time.time() < t_end:
-        run_case(ctx, res, gen_case(rng, "sharp" if i % 4 != 3 else "wide"))
+        if i % 25 == 7:
+            run_case(ctx, res, gen_est_case(rng))
+        else:
+            run_case(ctx, res, gen_case(rng, "sharp" if i % 4 != 3 else "wide"))
         i += 1
